@@ -26,6 +26,12 @@ CONSUMERS = [
     ".o | keys", ".o | [.[]]", ".o | tojson", ".o | to_entries | map(.key)", ".o | keys_unsorted" if False else ".o | [paths]", ".xs | sort | . == (. | sort)", ".xs | unique == (sort | [foreach .[] as $e ({p: null, f: true}; {p: $e, f: (.f or .p != $e), o: $e}; select(.f) | .o)])" if False else ".xs | (unique | length) <= length",
     ".xs | [.[0] < .[1], .[0] <= .[1], .[0] > .[1], .[0] >= .[1], .[0] == .[1], .[0] != .[1]]", ".xs | [limit(3; .[])] | sort", ".xs | [.[] | [.]] | sort | map(.[0])",
     ".xs | map({a: .}) | sort | map(.a)", ".xs | map({a: .}) | unique | map(.a)", ".xs | [min, max] == [sort[0], sort[-1]]", ".ts | [min_by(.[0]), max_by(.[0])] == [sort_by(.[0])[0], sort_by(.[0])[-1]]" if False else ".ts | min_by(.[0]) == sort_by(.[0])[0]",
+    # keys that are LISTS of outputs (f may yield nothing, one or several values per element): [] < [x] < [x, y], never unwrapped
+    ".xs | sort_by(.[]?)", ".xs | group_by(.[]?)", ".xs | unique_by(.[]?)", ".xs | min_by(.[]?)", ".xs | max_by(.[]?)", ".ts | sort_by(.[0][]?) | map(.[1])", ".ts | sort_by(.[0] | numbers, strings) | map(.[1])",
+    ".ts | sort_by(.[0] // empty) | map(.[1])", ".ts | sort_by(.[0], .[1]) | map(.[1])", ".ts | group_by(.[0] | arrays | .[]) | map(map(.[1]))", ".ts | sort_by(.[0] | select(type == \"number\" or type == \"array\")) | map(.[1])",
+    ".ts | unique_by(.[0][]?) | map(.[1])", ".ts | [min_by(.[0][]?), max_by(.[0][]?)] | map(.[1]?)", ".xs | map([.]) | sort_by(.[]) == (map(.[0]) | sort | map([.]))", ".xs | sort_by(empty) == .", ".xs | sort_by(., .) == sort",
+    # array subtraction against long right operands (more than any small-size fast path would skip)
+    ".ys as $ys | .xs - ($ys + $ys + $ys + $ys + $ys + $ys + [range(100; 112)])", ".xs - (.xs[:1] + [range(100; 120)])", ".xs - (.xs | reverse | .[:2] + [range(20)] + .[2:])",
     ".xs | sort | reverse | sort", ".xs | tojson", "[.xs[] as $a | .ys[] as $b | $a < $b]", ".xs | group_by(.) | map(length)", ".xs | unique | length", ".xs | [.[] | type] | unique",
 ]
 
@@ -88,7 +94,7 @@ def run(tier, seed, replay):
             keys = r.sample(["a", "b", "aa", "B", "", "é", "10", "9", "ab", "z", "~"], r.randrange(6))
             o = {"t": "obj", "o": sorted([[[ord(c) for c in k], r.choice(few)] for k in keys])}
             inp = {"t": "obj", "o": [[[111], o], [[116, 115], {"t": "arr", "a": ts}], [[120], r.choice(few)], [[120, 115], {"t": "arr", "a": xs}], [[121, 115], {"t": "arr", "a": ys}]]}
-            for q in r.sample(CONSUMERS, 6 if quick else 10):
+            for q in r.sample(CONSUMERS, 9 if quick else 14):
                 cases.append({"id": len(cases), "src": q, "inputs": [inp]})
         counters = evalfam.check_cases(rep, work, vh, prelude, cases, timeout=1500, per_shard_min=30)
         rep.cov["consumer_verdicts"] = counters
@@ -100,6 +106,10 @@ def run(tier, seed, replay):
                 ("min", "to_entries | min_by(.value) | .key", "one"), ("max", "to_entries | max_by(.value) | .key", "one"), ("min_by(.)", "to_entries | min_by(.value) | .key", "one"), ("max_by(.)", "to_entries | max_by(.value) | .key", "one"),
                 ("min_by(-.)", "to_entries | min_by(-.value) | .key", "one"), ("max_by(-.)", "to_entries | max_by(-.value) | .key", "one"), ("group_by(.)", "to_entries | group_by(.value) | map(map(.key))", "groups"),
                 ("group_by(-.)", "to_entries | group_by(-.value) | map(map(.key))", "groups"), ("[.[] | select(. == 1)]", "to_entries | map(select(.value == 1) | .key)", "list"), ("(sort | first), (sort | last)", "to_entries | sort_by(.value) | (first, last) | .key", "ones"),
+                (". - [1]", "to_entries | map(select(.value != 1) | .key)", "list"), (". - [1, range(100; 120)]", "to_entries | map(select(.value != 1) | .key)", "list"),
+                (". - [0, 1.5, 10, range(100; 120)]", "to_entries | map(select(.value != 0 and .value != 1.5 and .value != 10) | .key)", "list"), (". - [range(100; 130), 2, -1]", "to_entries | map(select(.value != 2 and .value != -1) | .key)", "list"),
+                (". - [range(-1; 17)]", "to_entries | map(select(.value == 1.5) | .key)", "list"), ("sort_by(., .)", "to_entries | sort_by(.value) | map(.key)", "list"), ("sort_by(select(. != 1))", "to_entries | sort_by(.value | select(. != 1)) | map(.key)", "list"),
+                ("group_by(select(. > 0))", "to_entries | group_by(.value | select(. > 0)) | map(map(.key))", "groups"),
                 ("[limit(3; sort[])]", "to_entries | sort_by(.value) | map(.key) | .[:3]", "list"), ("reverse | max", "to_entries | reverse | max_by(.value) | .key", "one"), ("reverse | min", "to_entries | reverse | min_by(.value) | .key", "one")]
         tcases, scases = [], []
         for _ in range(120 if quick else 10000):
@@ -113,7 +123,7 @@ def run(tier, seed, replay):
                 used.add(lits[-1])
             if len(lits) != len(vals):
                 continue
-            for q, law, shape in r.sample(LAWS, 4 if quick else 8):
+            for q, law, shape in r.sample(LAWS, 7 if quick else 12):
                 tcases.append({"id": len(tcases), "src": q, "text": "[" + ",".join(lits) + "]", "lits": lits, "shape": shape})
                 scases.append({"id": len(scases), "src": law, "inputs": [jqgen.V(vals)]})
         vc.write_ndjson(work.path("ties.cases"), tcases)
